@@ -10,21 +10,21 @@ CHECKS = {
     "C01": dict(
         category="model_checking",
         technique="explicit-state exploration of the real lot matcher over the prefix tree of histories (bounded exhaustive, deviation-bounded), order monitor + reference matcher",
-        text="Every valid single-asset history over a 14-symbol alphabet up to depth 4 (thorough 5) is executed from scratch through compute_tax under each of fifo/lifo/hifo/lofo, every two-year (thorough: three-year) method schedule, with 1 (2) deviations in disposal type / UTC offset / amount scale and with sheet order reversed; on every node a monitor checks that no strictly better-ranked lot with balance was passed over, and tie-free traces must equal the reference matcher's pairing. This is the deepest level the family offers for a sequential matcher: all interleavings within the bound, none sampled. Also: a purchase carrying a large fiat fee at every purchase position (fee-inclusive unit cost ranks differently from spot price) and same-instant events falling under different methods of a schedule. A front-end phase (spreadsheet -> parse_ods -> compute_tax, both sheet orders) runs the tree over an alphabet with acquisitions paying a crypto fee (the parser's fee-only disposals take lots in method order too).",
+        text="Every valid single-asset history over a 14-symbol alphabet up to depth 4 (thorough 5) is executed from scratch through compute_tax under each of fifo/lifo/hifo/lofo, every two-year (thorough: three-year) method schedule, with 1 (2) deviations in disposal type / UTC offset / amount scale and with sheet order reversed; on every node a monitor checks that no strictly better-ranked lot with balance was passed over, and tie-free traces must equal the reference matcher's pairing. This is the deepest level the family offers for a sequential matcher: all interleavings within the bound, none sampled. Also: a purchase carrying a large fiat fee at every purchase position (fee-inclusive unit cost ranks differently from spot price) and same-instant events falling under different methods of a schedule. A front-end phase (spreadsheet -> parse_ods -> compute_tax, both sheet orders) runs the tree over an alphabet with acquisitions paying a crypto fee (the parser's fee-only disposals take lots in method order too). Further phases: steps of 250 ms with reversed sheet order; every two- and three-year schedule x every order of the [accounting_methods] lines written to a config file and read back by the real Configuration.",
         note="Trusts the reference model in rp2verif/models/lots.py (40 lines, exact rationals); histories outside the alphabet or deeper than the completed depth are not covered; ties on the primary key are deliberately not ordered.",
         design="3/C01",
     ),
     "C02": dict(
         category="model_checking",
         technique="explicit-state exploration of the real lot matcher over valid and over-spending histories, cumulative-balance reference model, exact conservation sums",
-        text="Every history (valid or over-spending, S(ALL) enabled at every node) up to depth 4 (thorough 5) x every method / two-year schedule x amount scales down to 1e-11: the run must fail iff some instant's cumulative disposals exceed cumulative acquisitions; on success per-disposal sums equal amount+fee exactly, no lot is overspent or later than its event, and a sold-out holding leaves every lot exactly exhausted. Also: a fee-bearing transfer inside one account, and every history re-run with a from-date on its last day (acceptance and rejection must not depend on the window). A front-end phase (spreadsheet -> parse_ods -> compute_tax, both sheet orders) runs valid and over-spending histories over an alphabet with purchases and income paying a crypto fee (the parser's fee-only disposals must be covered and conserved like any other).",
+        text="Every history (valid or over-spending, S(ALL) enabled at every node) up to depth 4 (thorough 5) x every method / two-year schedule x amount scales down to 1e-11: the run must fail iff some instant's cumulative disposals exceed cumulative acquisitions; on success per-disposal sums equal amount+fee exactly, no lot is overspent or later than its event, and a sold-out holding leaves every lot exactly exhausted. Also: a fee-bearing transfer inside one account, and every history re-run with a from-date on its last day (acceptance and rejection must not depend on the window). A front-end phase (spreadsheet -> parse_ods -> compute_tax, both sheet orders) runs valid and over-spending histories over an alphabet with purchases and income paying a crypto fee (the parser's fee-only disposals must be covered and conserved like any other). Also steps of 250 ms with reversed sheet order.",
         note="Trusts the cumulative-balance model; over-spent nodes are extended one level only (every longer extension contains the same uncovered disposal).",
         design="3/C02",
     ),
     "C03": dict(
         category="exploration",
-        technique="bounded-exhaustive enumeration of all sequences over the 20 (table, type) symbols on the real compute_tax, independent taxability table",
-        text="All sequences of up to 4 (thorough 5) transactions over every (table, transaction type) pair - 10 IN types, 6 OUT types, a SELL with fee, transfers with and without fee, a fee-bearing transfer to self - after a covering purchase, one day apart and with every placement of one (two) same-instant steps, under fifo and hifo (thorough: all four): the taxable event set and the gain/loss set must contain exactly the rows an independent table says, once, in full, lot-less with zero cost for income, under the row's own type. Also through the whole front end (spreadsheet -> parse_ods -> compute_tax): acquisitions of every one of the 10 IN types paying their fee in crypto (the fee is a fee-typed disposal at the same instant), sequences up to 2 (thorough 3) after a covering purchase, both sheet orders, fifo / hifo.",
+        technique="bounded-exhaustive enumeration of all sequences over the 21 (table, type) symbols on the real compute_tax, independent taxability table",
+        text="All sequences of up to 4 (thorough 5) transactions over every (table, transaction type) pair - 10 IN types, 6 OUT types, a SELL with fee, a fee-typed disposal at spot price 0, transfers with and without fee, a fee-bearing transfer to self - after a covering purchase, one day apart and with every placement of one (two) same-instant steps, under fifo and hifo (thorough: all four): the taxable event set and the gain/loss set must contain exactly the rows an independent table says, once, in full, lot-less with zero cost for income, under the row's own type. Also through the whole front end (spreadsheet -> parse_ods -> compute_tax): acquisitions of every one of the 10 IN types paying their fee in crypto (the fee is a fee-typed disposal at the same instant), sequences up to 2 (thorough 3) after a covering purchase, both sheet orders, fifo / hifo.",
         note="The taxability table is written independently in rp2verif/props/c03.py. Negative STAKING acquisitions and transfer fees worth < 5e-14 fiat are outside the alphabet.",
         design="3/C03",
     ),
@@ -52,7 +52,7 @@ CHECKS = {
     "C07": dict(
         category="exploration",
         technique="bounded-exhaustive 3-account prefix tree on the real pipeline x to-dates x -n, reference account replay + lot reconciliation",
-        text="Every history up to depth 3 (thorough 4) over 30 symbols on 3 accounts (2 exchanges x 2 holders; buys, income, sales, transfers with/without fee between all ordered pairs and to self) x fifo/hifo x -n off/on x every to-date: each account's acquired / sent / received / final equals the reference replay, every touched account appears once, and the sum of final balances equals acquired lots minus consumed fractions. Also: amounts x 1e-6 (transfer fees worth far less than a cent), and the balance tables of rp2_full_report read back, incl. same-instant purchases paying crypto fees without unique ids.",
+        text="Every history up to depth 3 (thorough 4) over 30 symbols on 3 accounts (2 exchanges x 2 holders; buys, income, sales, transfers with/without fee between all ordered pairs and to self) x fifo/hifo x -n off/on x every to-date: each account's acquired / sent / received / final equals the reference replay, every touched account appears once, and the sum of final balances equals acquired lots minus consumed fractions. Also: amounts x 1e-6 (transfer fees worth far less than a cent), and the balance tables of rp2_full_report read back, incl. same-instant purchases paying crypto fees without unique ids. Also: every timestamp at -05:00 / +09:00 (own date != UTC date) x every to-date.",
         note="Per-holder totals exist only in the report and are read back in C13.",
         design="3/C07",
     ),
@@ -122,14 +122,14 @@ CHECKS = {
     "C15": dict(
         category="exploration",
         technique="bounded-exhaustive multi-holder history tree x second asset x methods x to-dates through spreadsheet -> parse_ods -> compute_tax -> the real open_positions plugin in a forked child; .ods read back against exact-rational reference figures",
-        text="Asset B1 = every history up to depth 3 over 10 symbols on 3 accounts (2 exchanges x 2 holders; steps +1h / +1d / +1y) in which no account is ever overdrawn, asset B2 = none or one of 2 fixed multi-holder histories; x fifo / lifo / hifo / lofo x to-date (none, year ends, every transaction day and the day before). Read-back of both sheets: exactly the holders / (exchange, holder) accounts with a positive balance of an asset that has unsold lot parts; crypto balance = reference account replay of the input rows; per-unit cost = cost (with fees) of the unconsumed lot parts / total balance; unrealized cost per row; weights add up to 100 % on both sheets; realized cost of the detail fractions + unrealized cost in the report = cost of everything acquired. Lots and their cost (amount x price + fee, crypto fee x price) are also recomputed from the input rows (own date <= to-date); depth <= 2 also with every timestamp at +09:00 / -05:00; one lot of asset B2 is bought with a crypto fee.",
+        text="Asset B1 = every history up to depth 3 over 10 symbols on 3 accounts (2 exchanges x 2 holders; steps +1h / +1d / +1y) in which no account is ever overdrawn, asset B2 = none or one of 2 fixed multi-holder histories; x fifo / lifo / hifo / lofo x to-date (none, year ends, every transaction day and the day before). Read-back of both sheets: exactly the holders / (exchange, holder) accounts with a positive balance of an asset that has unsold lot parts; crypto balance = reference account replay of the input rows; per-unit cost = cost (with fees) of the unconsumed lot parts / total balance; unrealized cost per row; weights add up to 100 % on both sheets; realized cost of the detail fractions + unrealized cost in the report = cost of everything acquired. Lots and their cost (amount x price + fee, crypto fee x price) are also recomputed from the input rows (own date <= to-date); depth <= 2 also with every timestamp at +09:00 / -05:00; one lot of asset B2 is bought with a crypto fee. Depth <= 2 also with every price x 1/320000 (per-unit cost of a fraction of a cent).",
         note="The consumed part of each lot is taken from the computed fractions (C01/C02 judge those); balances are recomputed independently.",
         design="3/C15",
     ),
     "C16": dict(
         category="exploration",
         technique="exhaustive option matrix (entry point x method x language x [accounting_methods] x input shape x date filter) on the real command-line entry points, each run in a fresh forked process",
-        text="Every supported configuration - rp2_us / jp / es / ie / generic x -m absent and every accepted method x -g absent (the country default, incl. rp2_jp's 'ja') and every language with templates x [accounting_methods] absent / one entry (also with a year other than 1970) / several entries - crossed with 12 input shapes (single / multi asset, sparse years, asset fully sold in thirds, income-only asset, transfers with / without fee and spot price across holders, all 14 types, crypto-fee purchase, mixed zones at New Year, an asset starting years after the others, a disposal over 30 lots, equal timestamps) and date filters from {before all, year start / mid-year / year end, the day after a year's last taxable event, the day before an asset's first acquisition, after all} (quick: no filter + 3 rotating filters per pair and all single-bound filters for plain rp2_us, 2 264 runs; thorough: all single-bound filters everywhere, all from <= to pairs for the us / jp defaults). Each run must exit 0, write every report of the country as a readable spreadsheet and nothing else, and log no traceback.",
+        text="Every supported configuration - rp2_us / jp / es / ie / generic x -m absent and every accepted method x -g absent (the country default, incl. rp2_jp's 'ja') and every language with templates x [accounting_methods] absent / one entry (also with a year other than 1970) / several entries - crossed with 12 input shapes (single / multi asset, sparse years, asset fully sold in thirds, income-only asset, transfers with / without fee and spot price across holders, all 14 types, crypto-fee purchase, mixed zones at New Year, an asset starting years after the others, a disposal over 30 lots, equal timestamps) and date filters from {before all, year start / mid-year / year end, the day after a year's last taxable event, the day before an asset's first acquisition, after all} (quick: no filter + 3 rotating filters per pair and all single-bound filters for plain rp2_us, 2 264 runs; thorough: all single-bound filters everywhere, all from <= to pairs for the us / jp defaults). Each run must exit 0, write every report of the country as a readable spreadsheet and nothing else, and log no traceback. Shapes now also include 160 weekly purchases liquidated by two sales (160 fractions for 2 events) and two same-instant disposals of which the first uses up exactly one lot.",
         note="Excluded as unsupported: rp2_jp with -f and -t together (refused by message), schedules that do not cover the input's first year.",
         design="3/C16",
     ),
